@@ -1,0 +1,14 @@
+//go:build verif
+
+package server
+
+// Exported wrappers of the JSON string helpers for the C17 correspondence harness.
+
+// VerifJSONString is jsonString.
+func VerifJSONString(s string) string { return jsonString(s) }
+
+// VerifAppendJSONString is appendJSONString.
+func VerifAppendJSONString(b []byte, s string) []byte { return appendJSONString(b, s) }
+
+// VerifAppendJSONFloat is appendJSONFloat.
+func VerifAppendJSONFloat(b []byte, f float64) []byte { return appendJSONFloat(b, f) }
